@@ -11,7 +11,7 @@
 (***************************************************************************)
 EXTENDS InfOCFSem, Universe, Json, IOUtils, SequencesExt
 
-CONSTANTS MaxB, CU, WithC
+CONSTANTS MaxB, CU, WithC, WithAns     \* WithAns = FALSE: partitions only (cheap, used for the 3-conditional universe)
 
 VARIABLES stage, base
 vars == <<stage, base>>
@@ -32,7 +32,11 @@ Row(idx) ==
                             [] o = "l" -> SysLexP(B, P, CondOf(i), WS, m)
                             [] o = "c" -> CInfFrom(CR, B, CondOf(i), WS)], 0)
         none == ""
-    IN  [b |-> idx, strong |-> strong, weak |-> weak,
+    IN  IF ~WithAns
+        THEN [b |-> idx, strong |-> strong, weak |-> weak,
+              fin |-> [i \in DOMAIN P.fin |-> SetToSeq(P.fin[i])], inf |-> SetToSeq(P.inf)]
+        ELSE
+        [b |-> idx, strong |-> strong, weak |-> weak,
          fin |-> [i \in DOMAIN P.fin |-> SetToSeq(P.fin[i])], inf |-> SetToSeq(P.inf),
          kz0 |-> IF strong THEN [w \in WS |-> KZStar(B, WS, FALSE, w)] ELSE <<>>,
          kz1 |-> IF weak THEN [w \in WS |-> KZStar(B, WS, TRUE, w)] ELSE <<>>,
